@@ -272,3 +272,50 @@ def accepts_domain(m: Model, qual: str, values, param: str | None = None) -> lis
         except miniterp.Raised:
             refused.append(v)
     return refused
+
+
+def bytes_parts(fn_node: ast.AST, expr: ast.expr, _depth: int = 0) -> list[str] | None:
+    """The operands, in order, of the bytes value `expr` evaluates to at its use inside fn_node: `a + b` is split, a local name is resolved
+    through its straight-line definitions (`x = b""`, `x = a + b`, `x += c`, in position order before the use), b"" contributes nothing.
+    None: the value cannot be resolved this way (conditional definitions, loops)."""
+    if _depth > 6:
+        return None
+    if isinstance(expr, ast.BinOp) and isinstance(expr.op, ast.Add):
+        a, b = bytes_parts(fn_node, expr.left, _depth + 1), bytes_parts(fn_node, expr.right, _depth + 1)
+        return None if a is None or b is None else a + b
+    if isinstance(expr, ast.Constant) and expr.value == b"":
+        return []
+    if isinstance(expr, ast.Name):
+        pos = (expr.lineno, expr.col_offset)
+        defs = []
+        for blk_owner in ast.walk(fn_node):
+            for fld in ("body", "orelse", "finalbody"):
+                blk = getattr(blk_owner, fld, None)
+                if not (isinstance(blk, list) and blk and isinstance(blk[0], ast.stmt)):
+                    continue
+                for st in blk:
+                    tgt = st.targets[0] if isinstance(st, ast.Assign) and len(st.targets) == 1 else (st.target if isinstance(st, (ast.AugAssign, ast.AnnAssign)) else None)
+                    if isinstance(tgt, ast.Name) and tgt.id == expr.id and (st.lineno, st.col_offset) < pos:
+                        defs.append((st, blk))
+        if not defs:
+            return [expr.id]  # a parameter or outer name
+        if len({id(b) for _, b in defs}) != 1:
+            return None
+        defs.sort(key=lambda d: (d[0].lineno, d[0].col_offset))
+        parts: list[str] | None = None
+        for st, _ in defs:
+            if isinstance(st, ast.AugAssign):
+                if not isinstance(st.op, ast.Add) or parts is None:
+                    return None
+                more = bytes_parts(fn_node, st.value, _depth + 1)
+                if more is None:
+                    return None
+                parts = parts + more
+            else:
+                if st.value is None:
+                    continue
+                parts = bytes_parts(fn_node, st.value, _depth + 1)
+                if parts is None:
+                    return None
+        return parts
+    return [ast.unparse(expr)]
